@@ -7,15 +7,18 @@ import common as C
 import tmodel
 
 META = dict(
-    rule='(i) clip_native_to_wngrid on random native/observation grids; (ii) Opacity.opacity on its own points, '
+    rule='(i) clip_native_to_wngrid on random native/observation grids; (ii) Opacity.opacity and KTable.opacity '
+         '(every quadrature column) on their own points, '
          'sub-ranges, and foreign grids (finer, coarser, partly or wholly outside, between two native points); '
          '(iii) transmission and emission models with two molecules on different native grids evaluated on the '
-         'full grid, on sub-ranges and restricted to an observation, compared point by point; binning of the '
+         'full grid, on sub-ranges, on windows whose clipped size coincides with another table / the layer count, and '
+         'restricted to an observation, compared point by point, in cross-section and correlated-k mode; binning of the '
          'restricted and of the full result under the property\'s width condition; non-trivial = the restricted '
          'grid is a strict subset with >= 2 points',
     trusted=['the (T,P)-interpolated opacity on the molecule\'s full native grid is observed and handed to the '
              'rational model of the grid selection / interpolation onto the requested grid'],
-    modelled=['clip_native_to_wngrid, Opacity.opacity grid selection (filter, equality test, bracketing, np.interp), '
+    modelled=['clip_native_to_wngrid, Opacity.opacity / KTable.opacity grid selection (filter, equality test, '
+              'bracketing, np.interp / interp1d with end-value fill), '
               'SimpleForwardModel.nativeWavenumberGrid'],
     assumptions=['ascending native grids; the binning clause is checked on the implementation only '
                  '(margin lemma not proved)',
@@ -45,6 +48,71 @@ def gen_grid(rng, n, lo=100.0, hi=5000.0):
     return np.sort(np.array([rng.uniform(lo, hi) for _ in range(n)]))
 
 
+def make_ktable(wn, kcoeff, nq):
+    """a PickleKTable read back from a file written here (axes [P, T, wn, g])"""
+    import os
+    import pickle
+    from taurex.opacity.ktables.picklektable import PickleKTable
+    d = os.path.join(C.CACHE, 'c13_kt_%d' % os.getpid())
+    os.makedirs(d, exist_ok=True)
+    f = os.path.join(d, 'X.pickle')
+    w = np.full(nq, 1.0 / nq)
+    with open(f, 'wb') as fh:
+        pickle.dump(dict(bin_centers=np.array(wn, float), ngauss=nq, t=np.array([100.0, 1000.0]),
+                         p=np.array([1.0, 1e6]) / 1e5, kcoeff=np.array(kcoeff, float), weights=w, name='X'), fh)
+    try:
+        return PickleKTable(f)
+    finally:
+        os.remove(f)
+
+
+def make_request(rng, kind, ng, nn):
+    if kind == 'own_all':
+        return ng.copy()
+    if kind == 'own_sub':
+        i0 = rng.randrange(nn - 1)
+        return ng[i0:rng.randrange(i0 + 1, nn) + 1].copy()
+    if kind == 'finer':
+        lo_, hi_ = sorted([rng.uniform(ng[0], ng[-1]), rng.uniform(ng[0], ng[-1])])
+        return np.linspace(lo_, hi_ + 1e-3, rng.choice([4, 9, 25]))
+    if kind == 'coarser':
+        return np.linspace(ng[0] + rng.uniform(0, 50), ng[-1] - rng.uniform(0, 50), 3)
+    if kind == 'partly_out':
+        return np.linspace(ng[0] - rng.uniform(10, 500), ng[-1] + rng.uniform(10, 500), rng.choice([3, 7, 15]))
+    if kind == 'out_left':
+        return np.linspace(ng[0] - 500, ng[0] - 10, 4)
+    if kind == 'out_right':
+        return np.linspace(ng[-1] + 10, ng[-1] + 500, 4)
+    if kind == 'between':
+        j = rng.randrange(nn - 1)
+        w = ng[j + 1] - ng[j]
+        return np.array([ng[j] + 0.3 * w, ng[j] + 0.6 * w])
+    return np.array([rng.uniform(ng[0], ng[-1])])
+
+
+def foreign_own_ok(ctx, kind, ng, nn, vals, req, out, rp, what=''):
+    """the property's last sentence on one column: own points unchanged, other points between the neighbours"""
+    if kind.startswith('own'):
+        idx = np.searchsorted(ng, req)
+        if not np.array_equal(out, vals[idx]):
+            ctx.violation('own-points', what + 'opacity on the molecule\'s own points differs from the native values',
+                          replay=rp)
+            return False
+        return True
+    for x, v in zip(req, out):
+        j = int(np.clip(np.searchsorted(ng, x), 1, nn - 1))
+        lo_v, hi_v = min(vals[j - 1], vals[j]), max(vals[j - 1], vals[j])
+        if x <= ng[0]:
+            lo_v = hi_v = vals[0]
+        if x >= ng[-1]:
+            lo_v = hi_v = vals[-1]
+        if not (lo_v * (1 - 1e-12) <= v <= hi_v * (1 + 1e-12)):
+            ctx.violation('foreign-points', what + 'opacity %r at %r not between the neighbouring native values '
+                          '[%r, %r]' % (v, x, lo_v, hi_v), replay=rp)
+            return False
+    return True
+
+
 def run(ctx):
     from taurex.util.util import clip_native_to_wngrid
     rng = ctx.rng
@@ -64,9 +132,40 @@ def run(ctx):
         nn = rng.choice([3, 5, 9, 17])
         ng = gen_grid(rng, nn)
         tab = 10 ** (-22 + np.array([rng.uniform(-2, 2) for _ in range(2 * 2 * nn)]).reshape(2, 2, nn))
-        op = Mem('X', [100.0, 1000.0], [1.0, 1e6], tab, ng)
+        nq = 0
+        if rng.random() < 0.3:
+            # the same request served by a k-table (KTable.opacity): every quadrature column is selected / interpolated
+            # like a cross-section
+            nq = rng.choice([1, 2, 4])
+            tab = tab[..., None] * 10 ** np.array([rng.uniform(-1, 1) for _ in range(tab.size * nq)]).reshape(tab.shape + (nq,))
+            op = make_ktable(ng, tab, nq)
+        else:
+            op = Mem('X', [100.0, 1000.0], [1.0, 1e6], tab, ng)
         T, P = rng.uniform(150, 900), 10 ** rng.uniform(0.5, 5.5)
         vals = np.array(op.opacity(T, P))
+        if nq:
+            ctx.count('req:ktable')
+            rp_k = dict(kind='kopacity', native=ng, tab=tab, T=T, P=P)
+            kinds = ['own_all', 'own_sub', 'finer', 'coarser', 'partly_out', 'out_left', 'out_right', 'between', 'single']
+            kind = rng.choice(kinds)
+            req = make_request(rng, kind, ng, nn)
+            rp = dict(rp_k, req=req, reqkind=kind)
+            try:
+                with np.errstate(all='ignore'):
+                    out = np.array(op.opacity(T, P, req))
+            except Exception as e:
+                ctx.violation('kopacity-raises:' + kind, 'KTable.opacity raised %r on a %s grid' % (e, kind), replay=rp)
+                continue
+            if out.shape != (len(req), nq):
+                ctx.violation('kopacity-shape', 'KTable.opacity returned shape %r for %d points and %d quadrature '
+                              'points' % (out.shape, len(req), nq), replay=rp)
+                continue
+            for q in range(nq):
+                if not foreign_own_ok(ctx, kind, ng, nn, vals[:, q], req, out[:, q], rp, 'k-table '):
+                    break
+                e2.append('run_opacity_on %s %s %s' % (C.qlist(ng), C.qlist(vals[:, q]), C.qlist(req)))
+                m2.append(dict(out=out[:, q], rp=rp, kind='k:' + kind))
+            continue
         kind = rng.choice(['own_all', 'own_sub', 'finer', 'coarser', 'partly_out', 'out_left', 'out_right', 'between',
                            'single'])
         if kind == 'own_all':
@@ -194,7 +293,23 @@ def models(ctx, rng):
         spec = two_grid_spec(rng)
         em = rng.random() < 0.4
         rp = dict(kind='model', spec=spec, emission=em)
-        model = tmodel.build(spec, emission=em)
+        kdir = None
+        if rng.random() < 0.3:
+            # correlated-k mode: the same two molecules as k-tables on their own grids (KTable.opacity regrids them)
+            import os
+            kdir = os.path.join(C.CACHE, 'ktables_c13_%d' % os.getpid())
+            nq = rng.choice([1, 2, 3])
+            kw = np.array([rng.uniform(0.1, 1) for _ in range(nq)])
+            kw = kw / kw.sum()
+            kc = {}
+            for g in spec['gases']:
+                tab = np.array(spec['opac'][g]['tab'])
+                kc[g] = tab[..., None] * 10 ** np.array(
+                    [rng.uniform(-1, 1) for _ in range(tab.size * nq)]).reshape(tab.shape + (nq,))
+            tmodel.write_ktables(spec, kdir, kw, kc)
+            rp = dict(rp, ktables=dict(weights=kw, kcoeff=kc))
+            ctx.count('model:ktables')
+        model = tmodel.build(spec, emission=em, kdir=kdir)
         with np.errstate(all='ignore'):
             full = model.model()
         grid = np.array(full[0])
@@ -250,6 +365,10 @@ def models(ctx, rng):
             else:
                 ctx.validated()
         ctx.count('model:' + ('emission' if em else 'transmission'))
+        if kdir is not None:
+            import shutil
+            shutil.rmtree(kdir, ignore_errors=True)
+            tmodel.reset_caches()
 
 
 def replay(ctx, obj):
